@@ -136,7 +136,7 @@ def nice_model(ctx, f, h, model):
     return model
 
 
-def run_step(P, cfg, n, op, props=None, seed=0, timeout_ms=20000, nmax=None, deadline=None):
+def run_step(P, cfg, n, op, props=None, seed=0, timeout_ms=20000, nmax=None, deadline=None, hits_max=False):
     """execute STEP(cfg, n, op) and check all claims whose property is in `props` (None = all)"""
     I = Interp(P)
     res = StepResult(); t0 = time.time()
@@ -147,7 +147,7 @@ def run_step(P, cfg, n, op, props=None, seed=0, timeout_ms=20000, nmax=None, dea
     cur = {}
     def run(ctx):
         I.reset()
-        h = Harness(P, I, ctx, cfg, n, nmax=nmax)
+        h = Harness(P, I, ctx, cfg, n, nmax=nmax, hits_max=hits_max)
         k = z3.Int('argkey'); v = z3.Int('argval')
         cur['h'] = h; cur['k'] = k; cur['v'] = v; cur['ctx'] = ctx
         ctx.add(z3.And(k >= 0, v >= 0))
@@ -284,9 +284,10 @@ def oracle_get(ctx, h, k, r, claims, pre_clock):
             add('C03', 'a hit removes nothing', sorted(map(str, ids)) == sorted(map(str, range(h.n))))
             me = [s for s in store if s['id'] == case]
             if me:
-                exp_hits = e.hits + 1 if cfg.policy in COUNTING else e.hits
+                exp_hits = (z3.If(e.hits + 1 > 2 ** 64 - 1, 2 ** 64 - 1, e.hits + 1) if is_z3(e.hits) else min(e.hits + 1, 2 ** 64 - 1)) if cfg.policy in COUNTING else e.hits
                 add('C08' if cfg.policy in COUNTING else 'C01', 'a hit counts one use of the entry (LFU/ARC/TLRU) and changes nothing else in it',
                     b_and(simp(me[0]['val'] == e.val), simp(me[0]['birth'] == e.birth), simp(me[0]['hits'] == exp_hits)))
+            if me: add('C06', 'a hit does not renew the lifetime of the entry', simp(me[0]['birth'] == e.birth))
             add('C01', 'a hit leaves every other entry unchanged', others_ok)
             if cfg.policy in RECENCY and bounded:
                 expq = [i for i in range(h.n) if i != case] + [case]
